@@ -112,6 +112,22 @@ CLAIMS = {
          "bitmap position add the bit of that position, and that every receiver field Stat reads is replaced by every successful Unmarshal of every "
          "compatible version. Does not decide KeyCnt = number of retained keys or monotonicity (runtime ranks)."),
    design="4/C18"),
+
+ "C08": dict(
+   technique="CFG/dominance + symbolic induction-variable terms (order check) and call-chain-bound narrowing analysis with guard implication",
+   text=("Decides that out-of-order input is always rejected: the construction function compares keys[a] with keys[a+1] as Go strings for "
+         "a = 0..len-2 unconditionally, returns (nil, ErrKeyOutOfOrder-derived) exactly on >=, and the loop exit dominates every consumer of "
+         "the keys; and that no accepted input stores a silently truncated quantity: every narrowing to 8/16 bits reachable from NewSlimTrie or "
+         "the legacy rebuild is bounded locally, by operand widths through the call chain, or by an error guard on the same term that lies on "
+         "every path on which the conversion can execute (option-polarity aware). Does not decide that accepted lists are indexed correctly (C01)."),
+   design="4/C08"),
+ "C12": dict(
+   technique="SSA def-use / CFG check that every positive answer is the reader's own result; type agreement via go/types",
+   text=("Decided for every record set and query: SlimIndex.Get/RangeGet return (\"\",false) exactly on the trie's not-found branch and otherwise "
+         "the unmodified result of DataReader.Read(offset.(T), key) with key the query and offset the trie's value for it; routing Get->Get, "
+         "RangeGet->RangeGet; T is the type the index encoder's Decode boxes and the element type of the offsets handed to it. Necessary for "
+         "exactness because the trie alone has false positives; the trie's own answers for indexed keys are C01/C02."),
+   design="4/C12"),
 }
 
 NA = {
